@@ -124,10 +124,13 @@ var gatedSnippets = map[string][]string{
 	"C02-PARSEFUNCTION-WRAPPER":   {`Function("}); (function(){")`, `Function("", "}) + (function(){")`, `new Function("a){}) + (function(", "")`},
 	"C02-TOLOCALESTRING-TAG":      {`(1).toLocaleString("not a tag")`, `(1).toLocaleString({})`},
 	"C02-OBJECT-ASSIGN-PRIMITIVE": {`Object.assign(1, {a:1})`, `Object.assign("s", "ab")`},
-	"C02-JSON-STRINGIFY-DEPTH":    {`JSON.stringify(1, Array)`, `JSON.stringify({a:1}, function(k,v){return {a:1}})`},
+	"C02-APPLY-HUGE-LENGTH": {`(function(){}).apply(null, {length: 4294967295})`, `Math.max.apply(null, {length: 4294967295})`, `String.fromCharCode.apply(null, {length: 4294967290})`, `Array.apply(null, {length: 3000000000})`,
+		`Function.prototype.apply.call(function(){}, null, {length: 4294967295})`, `(function(){}).apply.bind(function(){})(null, {length: 4294967295})`, `Function.prototype.apply.apply(function(){}, [null, {length: 4294967295}])`,
+		`new (Function.prototype.bind.apply(Date, {length: 4294967295}))`, `var a = []; a.length = 4294967295; (function(){}).apply(null, a)`, `(function(){ return arguments.length }).apply(null, {length: -1})`},
+	"C02-JSON-STRINGIFY-DEPTH": {`JSON.stringify(1, Array)`, `JSON.stringify({a:1}, function(k,v){return {a:1}})`},
 }
 
-var gatedOrder = []string{"C02-THROW-UNPRINTABLE", "C02-REGEXP-PROTOTYPE-NIL", "C02-PARSEFUNCTION-WRAPPER", "C02-TOLOCALESTRING-TAG", "C02-OBJECT-ASSIGN-PRIMITIVE", "C02-JSON-STRINGIFY-DEPTH"}
+var gatedOrder = []string{"C02-APPLY-HUGE-LENGTH", "C02-THROW-UNPRINTABLE", "C02-REGEXP-PROTOTYPE-NIL", "C02-PARSEFUNCTION-WRAPPER", "C02-TOLOCALESTRING-TAG", "C02-OBJECT-ASSIGN-PRIMITIVE", "C02-JSON-STRINGIFY-DEPTH"}
 
 func activeSnippets() []string {
 	out := append([]string{}, hostileSnippets...)
@@ -184,7 +187,32 @@ func genSource(t *rapid.T) sourceCase {
 			return piece{T: sourceMapTail(rapid.SampledFrom(sourceMaps).Draw(t, "sm"))}
 		}
 	}
-	switch mode := rapid.IntRange(0, 11).Draw(t, "mode"); {
+	switch mode := rapid.IntRange(0, 12).Draw(t, "mode"); {
+	case mode == 12:
+		// operators nested on operands that are themselves operator applications
+		c.Mode = "non-reference-operand"
+		c.Sep = ""
+		e := rapid.SampledFrom(nonReferenceOperands).Draw(t, "operand")
+		for i := rapid.IntRange(1, 3).Draw(t, "depth"); i > 0; i-- {
+			op := rapid.SampledFrom(refOperators).Draw(t, "operator")
+			if strings.HasPrefix(op, "for ") || strings.HasPrefix(op, "with ") {
+				if i > 1 {
+					continue
+				}
+				e = strings.ReplaceAll(op, "%E", e)
+				break
+			}
+			e = strings.ReplaceAll(op, "%E", e)
+			if i > 1 && rapid.Bool().Draw(t, "paren") {
+				e = "(" + e + ")"
+			}
+		}
+		ctx := rapid.SampledFrom(operandContexts).Draw(t, "context")
+		if (strings.HasPrefix(e, "for ") || strings.HasPrefix(e, "with ")) && strings.Contains(ctx.src, "%X") {
+			ctx = operandContexts[0]
+		}
+		src := strings.ReplaceAll(strings.ReplaceAll(strings.ReplaceAll(ctx.src, "%S", e), "%X", e), "%Q", harness.JSString(e))
+		c.Pieces = []piece{{T: operandPrelude + src}}
 	case mode == 11:
 		// two operations of the reference-race family in one scope, random deletions
 		c.Mode = "reference-race"
@@ -601,8 +629,61 @@ func raceScripts() [][]string {
 	return all
 }
 
+// ---- reference-consuming operators on operands that are not references ------------------------------------
+
+const operandPrelude = `var a = 1, b = 2, c = 3, o = {m: function(){ return 1 }, x: 1}, f = function(){ return 1 }, g = function(){ return f }, F = function(){ this.x = 1 }; `
+
+// %E is the operand
+var refOperators = []string{
+	`%E++`, `%E--`, `++%E`, `--%E`, `- --%E`, `%E++ + ++%E`, `%E = 1`, `%E += 1`, `%E -= 1`, `%E *= 2`, `%E /= 2`, `%E %= 2`, `%E <<= 1`, `%E >>= 1`, `%E >>>= 1`, `%E &= 1`, `%E |= 1`, `%E ^= 1`,
+	`%E = %E`, `a = %E = 2`, `delete %E`, `typeof %E`, `void %E`, `for (%E in {k: 1}) ;`, `for (%E in {k: 1}) break`, `for (var q in %E) ;`, `for (;; %E++) break`, `for (%E = 0; false;) ;`,
+	`%E()`, `new %E`, `new %E()`, `%E.x = 1`, `%E.x++`, `%E[0] += 1`, `delete %E.x`, `(%E)++`, `((%E)) = 1`, `with (%E) a++`, `[%E][0]++`, `%E ? %E++ : --%E`, `a = (%E++, 1)`, `!%E--`, `typeof %E++`,
+}
+
+var nonReferenceOperands = []string{
+	`f()`, `o.m()`, `g()()`, `g(1)(2)`, `f.call(null)`, `eval("a")`, `(function(){ return a })()`, `new F`, `new F()`, `new F().x`, `new (g())`, `f().x`, `f()[0]`, `o.m().y.z`,
+	`1`, `"s"`, `null`, `true`, `undefined`, `NaN`, `/r/`, `[1]`, `({})`, `({x: 1}).x`, `this`, `this.a`, `arguments`, `function(){}`, `(function(){})`,
+	`(a + b)`, `a + b`, `(a, b)`, `(a ? b : c)`, `(a || b)`, `(a = 1)`, `(a)`, `((a))`, `(o.x)`, `(f())`, `((f()))`, `a++`, `++a`, `-a`, `!a`, `typeof a`, `void 0`, `delete a`, `(a in o)`, `(a instanceof F)`,
+}
+
+var operandContexts = []struct{ name, src string }{
+	{"statement", `%S`},
+	{"function", `(function(){ %S })()`},
+	{"expression", `var r = (%X)`},
+	{"for-update", `for (var i = 0; i < 2; i++, %X) ;`},
+	{"return", `(function(){ return %X })()`},
+	{"eval", `eval(%Q)`},
+	{"indirect-eval", `(0, eval)(%Q)`},
+	{"Function", `Function(%Q)()`},
+	{"getter", `({get p(){ %S }}).p`},
+	{"try-less finally", `try { %S } finally { a = 0 }`},
+}
+
+// operandScripts: one group per (operator, context), all operand shapes inside.
+func operandScripts() [][]string {
+	var all [][]string
+	for _, ctx := range operandContexts {
+		for _, op := range refOperators {
+			isStatement := strings.HasPrefix(op, "for ") || strings.HasPrefix(op, "with ")
+			if isStatement && strings.Contains(ctx.src, "%X") {
+				continue
+			}
+			var group []string
+			for _, e := range nonReferenceOperands {
+				st := strings.ReplaceAll(op, "%E", e)
+				src := strings.ReplaceAll(ctx.src, "%S", st)
+				src = strings.ReplaceAll(src, "%X", st)
+				src = strings.ReplaceAll(src, "%Q", harness.JSString(st))
+				group = append(group, operandPrelude+src)
+			}
+			all = append(all, group)
+		}
+	}
+	return all
+}
+
 // runScriptOnly: a (syntactically valid) script through the evaluating entry points only.
-func runScriptOnly(src string, limit int) (l entryLog) {
+func runScriptOnly(src string, limit int, brief bool) (l entryLog) {
 	var vm *otto.Otto
 	fresh := func() {
 		vm = newVM(limit, 30000)
@@ -613,6 +694,7 @@ func runScriptOnly(src string, limit int) (l entryLog) {
 		name string
 		fn   func()
 	}{
+		{"parser.ParseFile", func() { _, _ = parser.ParseFile(nil, "", src, 0) }},
 		{"Otto.Run(string)", func() { _, _ = vm.Run(src) }},
 		{"Otto.Eval", func() { _, _ = vm.Eval(src) }},
 		{"Otto.Compile+Run", func() {
@@ -629,6 +711,9 @@ func runScriptOnly(src string, limit int) (l entryLog) {
 		{"Otto.Run(eval(text))", func() { _ = vm.Set("__t", src); _, _ = vm.Run(`eval(__t)`) }},
 		{"Otto.Run(Function(text)())", func() { _ = vm.Set("__t", src); _, _ = vm.Run(`Function(__t)()`) }},
 	} {
+		if brief && (strings.HasPrefix(e.name, "Otto.Run(eval") || strings.HasPrefix(e.name, "Otto.Run(Function") || strings.HasPrefix(e.name, "Otto.Call")) {
+			continue // the operand family has eval / Function / function contexts of its own
+		}
 		if vm == nil || len(l.panics) > 0 {
 			fresh()
 		}
@@ -643,10 +728,10 @@ func runScriptOnly(src string, limit int) (l entryLog) {
 
 func runSource(c sourceCase) (res jobResult) {
 	src := string(c.bytes())
-	if c.Mode == "reference-race" {
+	if c.Mode == "reference-race" || c.Mode == "non-reference-operand" {
 		// every piece is a script of its own
 		for _, p := range c.Pieces {
-			l := runScriptOnly(p.T, c.Limit)
+			l := runScriptOnly(p.T, c.Limit, c.Mode == "non-reference-operand")
 			res.Panics = append(res.Panics, l.panics...)
 			res.Classes = append(res.Classes, l.classes...)
 		}
@@ -725,7 +810,7 @@ func truncate(s string, n int) string {
 
 var sourceFacet = harness.Register(&harness.Facet[sourceCase]{
 	Name:     "source-bytes",
-	Rule:     "rapid: source text built from pieces — a token soup (every ES5 keyword and future reserved word, every punctuator, identifiers incl. unicode escapes, numeric/string/regexp literals in valid, partial and hostile forms, comments, line terminators, BOM, hostile one-line snippets), raw invalid UTF-8 / NUL bytes, pieces repeated up to 20000 times (very long identifiers and numbers), nesting openers repeated 3…5000 times with or without matching closers, inline base64 source maps, and regular-expression bodies (seed patterns and atom soups) cut at EVERY position and used both as /literal/ and as the string handed to RegExp, new RegExp, compile, match, search, split, replace and parser.TransformRegExp, scripts of the reference-race family (13 ways of declaring x and g — eval-declared in function/global/nested-eval code, implicit globals, var, parameters, with-objects, catch parameters — × 50 reference-consuming operations: plain/compound assignment, ++/--, for-in targets, var initialisers, typeof, calls, new, member writes, closures, eval, switch, try/finally — × 7 ways of deleting the binding between the evaluation of the reference and its use; enumerated completely and recombined by rapid; run through Run, Eval, Compile+Run, Otto.Call, Value.Call at rest, eval(text) and Function(text)()), and valid programs from the semantic generator that are truncated, cut, spliced with another program, have ranges duplicated and tokens or raw bytes inserted. Each text goes, inside a worker subprocess on a runtime with stack depth limit ∈ {2,5,16,64,500} and a poll budget, through parser.ParseFile (two modes), parser.ParseFunction (as parameters and as body), the public scanner, (texts ≤ 300 bytes: ParseFile and ParseFunction on EVERY prefix, i.e. end of input after and inside every token), Otto.Compile, Run(*Script), Run(string), Run(*ast.Program), Run(io.Reader), Eval, Otto.Call (three forms), Otto.Object, Otto.Get/Set with the text as name, and as a string value through eval/Function/RegExp/JSON.parse/URI/Date.parse/etc. Oracle: every call returns; no Go panic crosses the API (the poll-budget sentinel excepted); the worker survives and answers. Non-trivial = the text is accepted or otto's scanner delivers ≥ 3 tokens before the first syntax error; distinct by the piece list",
+	Rule:     "rapid: source text built from pieces — a token soup (every ES5 keyword and future reserved word, every punctuator, identifiers incl. unicode escapes, numeric/string/regexp literals in valid, partial and hostile forms, comments, line terminators, BOM, hostile one-line snippets), raw invalid UTF-8 / NUL bytes, pieces repeated up to 20000 times (very long identifiers and numbers), nesting openers repeated 3…5000 times with or without matching closers, inline base64 source maps, and regular-expression bodies (seed patterns and atom soups) cut at EVERY position and used both as /literal/ and as the string handed to RegExp, new RegExp, compile, match, search, split, replace and parser.TransformRegExp, scripts applying every reference-consuming operator (postfix/prefix ++ --, = and the eleven compound assignments, delete, typeof, void, for-in targets, for-update, call, new, member writes, with; 43 forms) to every operand shape that is not (or only looks like) a reference (calls, new, literals, this, arguments, function expressions, parenthesised/binary/comma/conditional/assignment expressions, unary and update results; 50 shapes) in 10 contexts (statement, function, expression, for-update, return, eval, indirect eval, Function(), getter, try/finally; enumerated completely, nested by rapid), scripts of the reference-race family (13 ways of declaring x and g — eval-declared in function/global/nested-eval code, implicit globals, var, parameters, with-objects, catch parameters — × 50 reference-consuming operations: plain/compound assignment, ++/--, for-in targets, var initialisers, typeof, calls, new, member writes, closures, eval, switch, try/finally — × 7 ways of deleting the binding between the evaluation of the reference and its use; enumerated completely and recombined by rapid; run through Run, Eval, Compile+Run, Otto.Call, Value.Call at rest, eval(text) and Function(text)()), and valid programs from the semantic generator that are truncated, cut, spliced with another program, have ranges duplicated and tokens or raw bytes inserted. Each text goes, inside a worker subprocess on a runtime with stack depth limit ∈ {2,5,16,64,500} and a poll budget, through parser.ParseFile (two modes), parser.ParseFunction (as parameters and as body), the public scanner, (texts ≤ 300 bytes: ParseFile and ParseFunction on EVERY prefix, i.e. end of input after and inside every token), Otto.Compile, Run(*Script), Run(string), Run(*ast.Program), Run(io.Reader), Eval, Otto.Call (three forms), Otto.Object, Otto.Get/Set with the text as name, and as a string value through eval/Function/RegExp/JSON.parse/URI/Date.parse/etc. Oracle: every call returns; no Go panic crosses the API (the poll-budget sentinel excepted); the worker survives and answers. Non-trivial = the text is accepted or otto's scanner delivers ≥ 3 tokens before the first syntax error; distinct by the piece list",
 	Quick:    300,
 	Thorough: 2500,
 	Gen:      genSource,
@@ -752,6 +837,13 @@ func TestHostileSnippets(t *testing.T) {
 	}
 	for _, group := range raceScripts() {
 		c := sourceCase{Limit: 64, Mode: "reference-race", Sep: "\n"}
+		for _, sc := range group {
+			c.Pieces = append(c.Pieces, piece{T: sc})
+		}
+		cases = append(cases, c)
+	}
+	for _, group := range operandScripts() {
+		c := sourceCase{Limit: 64, Mode: "non-reference-operand", Sep: "\n"}
 		for _, sc := range group {
 			c.Pieces = append(c.Pieces, piece{T: sc})
 		}
